@@ -454,16 +454,6 @@ Proof.
     subst o1. rewrite H1. split; [reflexivity | exact H2].
 Qed.
 
-Lemma seq_ok_reg : forall (lin : hist) sp,
-  all2 match_out (spec_run sp (map o_op lin)) (map o_out lin) = true ->
-  seq_ok reg_nxt reg_acc sp lin = Some (spec_after sp (map o_op lin)).
-Proof.
-  induction lin as [|a lin IH]; intros sp H; cbn [map seq_ok]; [reflexivity|].
-  cbn [map spec_run] in H. unfold reg_acc, reg_nxt, spec_after. cbn [fold_left].
-  destruct (spec_step sp (o_op a)) as [sp1 e1]. cbn [all2] in H. apply andb_true_iff in H. destruct H as [H1 H2].
-  cbn [fst snd]. rewrite H1. apply IH. exact H2.
-Qed.
-
 Lemma no_conflict_sym : forall a b, no_conflict a b = no_conflict b a.
 Proof. intros. unfold no_conflict. apply andb_comm. Qed.
 
@@ -513,126 +503,4 @@ Proof.
     unfold needles_of. apply Permutation_flat_map. exact P.
 Qed.
 
-Lemma R_init_flags : forall a b, R (init_flags a b) (spec_flags a b) [].
-Proof. intros a b. exact (R_flags init spec_init [] a b R_init). Qed.
-
-(* a history that is linearizable w.r.t. the sequential volume model is linearizable w.r.t. the
-   register specification of C01, by the SAME order, and the final volume agrees with the final
-   register state -- inside the hypotheses of C01's refinement theorem *)
-Theorem vol_lin_to_reg : forall a b (h : hist) V,
-  conc_ok (map o_op h) = true ->
-  linearizable vol_nxt vol_acc (init_flags a b) (fun st => st = V) h ->
-  linearizable reg_nxt reg_acc (spec_flags a b) (agrees V) h.
-Proof.
-  intros a b h V Hc (lin & st' & P & RT & SQ & ->).
-  destruct (conc_ok_perm _ _ (Permutation_map o_op (Permutation_sym P)) Hc) as (Hwf & He & Hm).
-  destruct (seq_ok_vol _ _ _ SQ) as [Hrun Hst].
-  pose proof (R_init_flags a b) as HR0.
-  exists lin, (spec_after (spec_flags a b) (map o_op lin)). repeat split; auto.
-  - apply seq_ok_reg. rewrite <- Hrun. eapply refines_gen; eauto.
-  - intros id c t. pose proof (reach_R _ _ _ _ HR0 Hwf He Hm) as HR. rewrite Hst in HR.
-    assert (OK : ev_ok (seen_after [] (map o_op lin)) (t, RawRead id c false)) by (split; [reflexivity | exact I]).
-    destruct (step_R _ _ _ (t, RawRead id c false) HR OK) as [M _]. exact M.
-Qed.
-
-(* ---- C38, with respect to the register specification ---- *)
-Theorem machine_linearizable_reg : forall a b stop sched m,
-  mrun (minit (init_flags a b) stop) sched = Some m -> complete m = true ->
-  conc_ok (map o_op (history m)) = true ->
-  linearizable reg_nxt reg_acc (spec_flags a b) (agrees (m_vol m)) (history m).
-Proof.
-  intros a b stop sched m Hrun Hc Hok. apply vol_lin_to_reg; [exact Hok|].
-  eapply machine_linearizable; eauto.
-Qed.
-
-(* ---- the checkers used by the correspondence check ---- *)
-Theorem lin_check_vol_sound : forall fd fn (h : hist),
-  lin_check_vol fd fn h = true ->
-  linearizable vol_nxt vol_acc init (fun st => vol_final fd fn st = true) h.
-Proof. intros fd fn h. apply lin_check_sound. auto. Qed.
-
-Theorem lin_check_vol_complete : forall fd fn (h : hist),
-  linearizable vol_nxt vol_acc init (fun st => vol_final fd fn st = true) h ->
-  lin_check_vol fd fn h = true.
-Proof. intros fd fn h. apply lin_check_complete. auto. Qed.
-
-Theorem lin_check_reg_sound : forall fr (h : hist),
-  lin_check_reg fr h = true ->
-  linearizable reg_nxt reg_acc spec_init (fun sp => agrees_on fr sp = true) h.
-Proof. intros fr h. apply lin_check_sound. auto. Qed.
-
-Theorem lin_check_reg_complete : forall fr (h : hist),
-  linearizable reg_nxt reg_acc spec_init (fun sp => agrees_on fr sp = true) h ->
-  lin_check_reg fr h = true.
-Proof. intros fr h. apply lin_check_complete. auto. Qed.
-
-(* what the machine can produce is accepted by the checker: reads made after the run (at clock 0)
-   and the final .dat size / needle map entries included *)
-Definition read_after (st : vol) (x : N * N) : N * N * out :=
-  (fst x, snd x, snd (step st (0, RawRead (fst x) (snd x) false))).
-
-Theorem machine_admitted : forall stop sched m keys fn,
-  mrun (minit init stop) sched = Some m -> complete m = true ->
-  forallb (nm_entry_eqb (m_vol m)) fn = true ->
-  lin_check_vol (dat_end (m_vol m)) fn (history m) = true /\
-  (conc_ok (map o_op (history m)) = true ->
-   lin_check_reg (map (read_after (m_vol m)) keys) (history m) = true).
-Proof.
-  intros stop sched m keys fn Hrun Hc Hfn. split.
-  - apply lin_check_vol_complete. eapply linearizable_weaken; [|eapply machine_linearizable; eauto].
-    cbv beta. intros s ->. unfold vol_final. rewrite N.eqb_refl, Hfn. reflexivity.
-  - intro Hok. apply lin_check_reg_complete.
-    eapply linearizable_weaken; [|exact (machine_linearizable_reg false false stop sched m Hrun Hc Hok)].
-    cbv beta. intros sp Hag. unfold agrees_on. apply forallb_forall.
-    intros x Hx. apply in_map_iff in Hx. destruct Hx as [[id c] [<- _]]. unfold read_after. cbn [fst snd].
-    apply Hag.
-Qed.
-
-(* ================= Part 4: witnesses ================= *)
-Definition final_of (stop : bool) (sched : list label) : mstate :=
-  match mrun (minit init stop) sched with Some m => m | None => minit init stop end.
-
-(* without the non-empty-payload hypothesis (C01 finding 0) the register statement fails: a
-   sequential schedule, a write of zero bytes with cookie 5, then a read with cookie 6 *)
-Definition sched_empty : list label :=
-  [LInv 0 (CWrite (tombstone 1 5) false); LEnter 0 0; LApply 0 0; LRes 0;
-   LInv 1 (CRead 1 6 false); LEnter 1 0; LApply 1 0; LRes 1].
-
-Lemma register_refuted :
-  exists stop sched m,
-    mrun (minit init stop) sched = Some m /\ complete m = true /\
-    wf_history (map o_op (history m)) = true /\ pairwise_nc (needles_of (map o_op (history m))) = true /\
-    ~ linearizable reg_nxt reg_acc spec_init (fun _ => True) (history m).
-Proof.
-  exists false, sched_empty, (final_of false sched_empty).
-  split; [vm_compute; reflexivity|]. split; [vm_compute; reflexivity|].
-  split; [vm_compute; reflexivity|]. split; [vm_compute; reflexivity|].
-  intro H. apply (lin_check_complete reg_nxt reg_acc spec_init (fun _ => True) (fun _ => true)) in H; [|auto].
-  vm_compute in H. discriminate.
-Qed.
-
-(* non-vacuity: both write paths, a batch of two whose order in the channel is not the order
-   of the invocations, a read overlapping the batch, a delete, a second key *)
-Definition ex_needle (id cookie b : N) : needle :=
-  {| n_id := id; n_cookie := cookie; n_data := [b]; n_flags := 0; n_name := []; n_mime := []; n_pairs := [];
-     n_lastmod := 0; n_ttl := (0, 0) |}.
-
-Definition sched_example : list label :=
-  [LInv 0 (CWrite (ex_needle 1 5 65) true); LInv 1 (CWrite (ex_needle 1 5 66) true); LInv 2 (CRead 1 5 false);
-   LEnter 0 0; LEnter 1 0; LSend 1; LSend 0; LRecv; LDecide; LRecv; LDecide; LEnter 2 0; LLock;
-   LWApply 0; LInv 4 (CWrite (ex_needle 2 7 67) true); LWApply 0; LSync; LSubmit; LRes 1; LSubmit; LUnlock;
-   LApply 2 0; LRes 0; LRes 2; LInv 3 (CDelete 1 5); LEnter 3 0; LApply 3 0; LRes 3;
-   LStop; LEnter 4 0; LSend 4; LRecv; LDecide; LLock; LWApply 0; LSync; LSubmit; LUnlock; LRes 4;
-   LInv 5 (CRead 1 5 false); LInv 6 (CRead 2 7 false); LEnter 6 0; LEnter 5 0; LApply 6 0; LApply 5 0; LRes 5; LRes 6].
-
-Lemma example_ok :
-  let m := final_of true sched_example in
-  mrun (minit init true) sched_example = Some m /\ complete m = true /\
-  conc_ok (map o_op (history m)) = true /\
-  map (fun a => (o_id a, o_inv a, o_res a)) (history m) =
-    [(5, 39, 45); (6, 40, 46); (4, 14, 38); (3, 24, 27); (2, 2, 23); (0, 0, 22); (1, 1, 18)] /\
-  map (fun a => match o_out a with ORead e _ v => Some (err_eqb e ENone, v_data v) | _ => None end) (history m) =
-    [Some (false, []); Some (true, [67]); None; None; Some (true, [65]); None; None] /\
-  lin_check_reg (map (read_after (m_vol m)) [(1, 5); (2, 7)]) (history m) = true /\
-  lin_check_vol (dat_end (m_vol m)) [] (history m) = true.
-Proof. vm_compute. repeat split; reflexivity. Qed.
+(* the transfer to the register specification, the checkers and the witnesses: proof/VolumeConcReg.v *)
